@@ -217,6 +217,10 @@ def worker_entry(argv):
         ctx.cur_case = None
     if hasattr(mod, 'finish'):
       mod.finish(ctx)
+    if getattr(mod, 'ONLINE', None) and not os.environ.get('VF_NO_ONLINE'):
+      # further workloads under the property's online monitor: the repository's own tests, other checks' generated cases
+      from vf import foreign
+      foreign.run_spec(ctx, mod.ONLINE, tier)
   except Inconclusive as e:
     out = ctx.result()
     out['inconclusive'] = str(e)
@@ -240,7 +244,13 @@ def replay_entry(pid, path):
   case = from_json(rec['case'])
   ctx.cur_case = case
   ctx.case_no = rec.get('case_no', 1)
-  if hasattr(mod, 'replay_case'):
+  if isinstance(case, dict) and 'workload' in case:
+    from vf import foreign
+    ctx.seed, ctx.widx, ctx.nworkers = rec.get('worker_seed', 0), rec.get('worker', 0), rec.get('nworkers', 1)
+    if case['workload'] == 'suite':
+      ctx.widx = 0
+    foreign.run_spec(ctx, mod.ONLINE, tier, only=case['workload'])
+  elif hasattr(mod, 'replay_case'):
     mod.replay_case(ctx, case)
   else:
     mod.run_case(ctx, case)
